@@ -436,26 +436,7 @@ Ref World::apply_stmts_decls(const Op& op)
          if (plists.empty()) { Op o; o.code = OP_make_mapping; o.a[0] = op.a[0]; o.a[1] = op.a[0]; nested(o); }
          pl = plists.pick(op.a[0]);
       }
-      const ipr::Name& nm = N(op.a[1]);
-      const ipr::Type& t = T(op.a[2]);
-      HomoModel* hm = nullptr;
-      for (auto& h : homos) if (h.scope == &pl->parms.scope) hm = &h;
-      if (hm == nullptr) return nullptr;
-      for (auto& de : hm->decls) if (de.name == &nm) return nullptr;          // parameter names pairwise distinct
-      touching = hm->scope;
-      impl::Parameter* m = mp ? SUT(mp->param(nm, t)) : SUT(pl->add_member(nm, t));
-      const int64_t pos = int64_t(hm->decls.size());
-      Reading e{ int(Category_code::Parameter) };
-      expect_stmt_defaults(e);
-      e.r("type", nref(t)).s("specifiers", 0).r("name", nref(nm)).r("home_region", nref(pl->parms)).r("lexical_region", nref(pl->parms));
-      e.r("initializer", nullptr).r("master", nref(*m)).r("linkage", nref(L.cxx_linkage().language().what())).q("decl_set", { nref(*m) });
-      e.s("position", pos).s("level", hm->level);
-      hm->decls.push_back({ m, &nm, &t, code });
-      if (Rec* rc = rec(nref(static_cast<const ipr::Parameter_list&>(*pl)))) rc->exp.append("elements", nref(*m));
-      REG(static_cast<const ipr::Parameter&>(*m), e, true);
-      if (auto po = print_parent.find(nref(static_cast<const ipr::Parameter_list&>(*pl))); po != print_parent.end()) print_parent[nref(*m)] = po->second;
-      iparams.add(m); params.add(m); decls.add(m); add_stmt_handle(*this, m);
-      return nref(*m);
+      return add_parameter(pl, mp, N(op.a[1]), T(op.a[2]));
    }
    case OP_closure_add_capture: {
       if (closures.empty() or decls.empty()) return nullptr;
@@ -470,6 +451,30 @@ Ref World::apply_stmts_decls(const Op& op)
    default:
       return nullptr;
    }
+}
+
+
+Ref World::add_parameter(impl::Parameter_list* pl, impl::Mapping* mp, const ipr::Name& nm, const ipr::Type& t)
+{
+   const ipr::Lexicon& L = *lex;
+   HomoModel* hm = nullptr;
+   for (auto& h : homos) if (h.scope == &pl->parms.scope) hm = &h;
+   if (hm == nullptr) return nullptr;
+   for (auto& de : hm->decls) if (de.name == &nm) return nullptr;          // parameter names pairwise distinct
+   touching = hm->scope;
+   impl::Parameter* m = mp ? SUT(mp->param(nm, t)) : SUT(pl->add_member(nm, t));
+   const int64_t pos = int64_t(hm->decls.size());
+   Reading e{ int(Category_code::Parameter) };
+   expect_stmt_defaults(e);
+   e.r("type", nref(t)).s("specifiers", 0).r("name", nref(nm)).r("home_region", nref(pl->parms)).r("lexical_region", nref(pl->parms));
+   e.r("initializer", nullptr).r("master", nref(*m)).r("linkage", nref(L.cxx_linkage().language().what())).q("decl_set", { nref(*m) });
+   e.s("position", pos).s("level", hm->level);
+   hm->decls.push_back({ m, &nm, &t, OP_plist_add_member });
+   if (Rec* rc = rec(nref(static_cast<const ipr::Parameter_list&>(*pl)))) rc->exp.append("elements", nref(*m));
+   REG(static_cast<const ipr::Parameter&>(*m), e, true);
+   if (auto po = print_parent.find(nref(static_cast<const ipr::Parameter_list&>(*pl))); po != print_parent.end()) print_parent[nref(*m)] = po->second;
+   iparams.add(m); params.add(m); decls.add(m); add_stmt_handle(*this, m);
+   return nref(*m);
 }
 
 }
